@@ -633,15 +633,29 @@ impl<'a, 'b> Gen<'a, 'b> {
                 Pat::Name(self.fresh(prefix), t)
             }
             1 => {
-                // nested destructuring (X . Y) / (X Y)
+                // nested destructuring (X . Y) / (X Y) / (X Y Z) / (X Y Z . W) ...
                 self.feat("destructured-param");
                 let a = self.gen_elem_pat(prefix, depth - 1);
-                let b = if self.c.chance(128) {
+                let b = if self.c.chance(100) {
                     let t = self.gen_leaf_ty();
                     Pat::Name(self.fresh(prefix), t)
                 } else {
-                    let e = self.gen_elem_pat(prefix, depth - 1);
-                    Pat::Cons(Box::new(e), Box::new(Pat::Nil))
+                    // 1..3 further elements, proper or dotted
+                    let k = self.c.range(1, 3);
+                    if k >= 2 {
+                        self.feat("destructured-param>=3");
+                    }
+                    let mut items = vec![];
+                    for j in 0..k {
+                        items.push(if j == 0 { self.gen_elem_pat(prefix, depth - 1) } else { let t = self.gen_leaf_ty(); Pat::Name(self.fresh(prefix), t) });
+                    }
+                    let tail = if self.c.chance(60) {
+                        let t = self.gen_leaf_ty();
+                        Pat::Name(self.fresh(prefix), t)
+                    } else {
+                        Pat::Nil
+                    };
+                    list_pat(items, tail)
                 };
                 Pat::Cons(Box::new(a), Box::new(b))
             }
